@@ -40,6 +40,11 @@ func (vc *FnVC) newCtx(fr *frame, cur, old *state, vars map[string]val) *evalCtx
 	if fr != nil && fr.fn.Pkg != nil {
 		c.pkg = fr.fn.Pkg.Pkg
 	}
+	if fr != nil {
+		for k, v := range fr.lets {
+			c.vars[k] = v
+		}
+	}
 	for k, v := range vars {
 		c.vars[k] = v
 	}
@@ -671,6 +676,13 @@ func (c *evalCtx) call(x *ECall) val {
 		k := vc.newName("k")
 		return val{t: fmt.Sprintf("(and (= (s.len %s) (- (s.len %s) 1)) (forall ((%s Int)) (=> (and (<= 0 %s) (< %s (s.len %s))) (= (select (s.arr %s) %s) (select (s.arr %s) (+ %s 1))))))",
 			a.t, b.t, k, k, k, a.t, a.t, k, b.t, k), typ: tBool}
+	case "fresh": // fresh(p): p was allocated during the call
+		argN(1)
+		v := c.eval(x.Args[0])
+		if c.old == nil {
+			c.fail("fresh() needs a pre-state")
+		}
+		return val{t: fmt.Sprintf("(and (> %s %s) (<= %s %s))", v.t, c.old.alloc, v.t, c.cur.alloc), typ: tBool}
 	case "chr": // chr(c): one-byte string
 		argN(1)
 		v := c.eval(x.Args[0])
@@ -755,6 +767,18 @@ func (c *evalCtx) call(x *ECall) val {
 			rt = types.Typ[types.String]
 		}
 		return val{t: fmt.Sprintf("(%s %s)", q("tbl:"+name), v.t), typ: rt}
+	}
+	// contract-local spec function (let)
+	if lf, ok := c.vars["let$"+name]; ok {
+		ls := lf.let
+		if len(x.Args) != len(ls.Params) {
+			c.fail("let function %s expects %d arguments", name, len(ls.Params))
+		}
+		var as []string
+		for i, a := range x.Args {
+			as = append(as, c.evalAs(a, c.resolveType(ls.Params[i].Type)).t)
+		}
+		return val{t: fmt.Sprintf("(%s %s)", lf.t, strings.Join(as, " ")), typ: c.resolveType(ls.Result)}
 	}
 	// spec function
 	if sf, ok := vc.eng.db.SpecFns[name]; ok {
